@@ -200,6 +200,16 @@ def history_call(shape):
             b = ml.two_regime_series(10, 2, 89)
             fast_ticc.ticc_joint_labels([a, b], window_size=2, num_clusters=2, sparsity_weight=0.11,
                                         label_switching_cost=1.0, iteration_limit=2, min_cluster_size=2)
+        elif shape == "solver_in_process":
+            # the caller uses the public optimiser itself, in this very process, on shapes that share
+            # N*W with the probe but factor differently (memoised helpers stay warm in the parent and
+            # are inherited by every worker forked later)
+            from fast_ticc import admm
+            for (N, W) in ((4, 1), (1, 4), (2, 2), (1, 2), (2, 1)):
+                n = N * W
+                S = np.eye(n) + 0.3 * np.ones((n, n))
+                admm.admm_optimize_theta(S, 0.2, W, N, max_iterations=30)
+                admm.admm_optimize_theta(S, np.full((n, n), 0.1), W, N, max_iterations=30)
         elif shape == "failing":
             try:
                 fast_ticc.ticc_labels([np.zeros((5, 2))], window_size=2, num_clusters=2)
@@ -219,7 +229,7 @@ def history_call(shape):
         pass        # a history call that raises is still a history
 
 
-SHAPES = ("other_shape", "same_shape", "joint", "failing")
+SHAPES = ("other_shape", "same_shape", "joint", "failing", "solver_in_process")
 
 
 def task_history(task):
